@@ -96,6 +96,7 @@ pub enum ROp {
     DropScheduler { src: SrcId },
     StreamPush { src: SrcId, val: u8 },
     StreamEnd { src: SrcId },
+    StreamYield { src: SrcId },
     InsertIdle { idle: IdleId },
     CancelIdle { idle: IdleId },
     DropIdleHandle { idle: IdleId },
@@ -162,6 +163,8 @@ pub enum Ev {
     FutDrop { task: TaskId, thread_ok: bool },
     /// the stream of a StreamSource was polled
     StreamPoll { src: SrcId },
+    /// the stream woke its own waker during that poll and returned Pending although it had something to deliver
+    StreamSelfWake { src: SrcId },
     SrcDrop { src: SrcId },
     CbDrop { src: SrcId },
     IdleDrop { idle: IdleId },
